@@ -1,8 +1,12 @@
 ------------------------------- MODULE GroupGen -------------------------------
 (* Group configurations for C13, drawn by the Wichmann-Hill generator: 1-3 transactions over a pool of *)
 (* NPool contracts, transaction types, distinct absolute indices (or none), relative offsets.           *)
+(* The second half of the numbers is directed at the clearing rule for relative offsets: a target       *)
+(* transaction, a member running one of the pool contracts that check "the transaction at my index +    *)
+(* off" (RelCheckers, a sequence of [c, off]) which declares the target at exactly that offset, and a    *)
+(* third member that declares the same target at another offset, in every order of the three.           *)
 EXTENDS Prng, Json, TLC
-CONSTANTS Seed, NCfg, NPool
+CONSTANTS Seed, NCfg, NPool, RelCheckers
 
 Types == << "txn", "pay", "axfer", "appl" >>
 Offs  == << -2, -1, 1, 2 >>
@@ -18,8 +22,24 @@ CfgOf(k) ==
                      rel |-> IF hasRel THEN << [to |-> relTo, off |-> Offs[1 + RndS(Seed, k, 11, 10 * j + 5, 4)]] >> ELSE << >>]
     IN [k |-> k, txs |-> [j \in 1..n |-> tx(j)]]
 
+Perm3 == << << 1, 2, 3 >>, << 1, 3, 2 >>, << 2, 1, 3 >>, << 2, 3, 1 >>, << 3, 1, 2 >>, << 3, 2, 1 >> >>
+(* roles: 1 target, 2 checker, 3 other declarer; pos[r] = position of role r *)
+Directed(k) ==
+    LET pos == Perm3[1 + RndS(Seed, k, 12, 1, 6)]
+        rc  == RelCheckers[1 + RndS(Seed, k, 12, 2, Len(RelCheckers))]
+        n   == IF RndS(Seed, k, 12, 3, 4) = 0 THEN 2 ELSE 3          \* sometimes without the third member
+        pp  == IF n = 3 THEN pos ELSE (IF pos[1] < pos[2] THEN << 1, 2, 3 >> ELSE << 2, 1, 3 >>)
+        typ(i) == Types[1 + RndS(Seed, k, 12, 10 + i, 4)]
+        role(j) == CHOOSE r \in 1..3 : pp[r] = j
+        tx(j) == CASE role(j) = 1 -> [c |-> 1 + RndS(Seed, k, 12, 4, NPool), typ |-> typ(1), abs |-> -1, rel |-> << >>]
+                   [] role(j) = 2 -> [c |-> rc.c, typ |-> typ(2), abs |-> -1, rel |-> << [to |-> pp[1], off |-> rc.off] >>]
+                   [] role(j) = 3 -> [c |-> 1 + RndS(Seed, k, 12, 5, NPool), typ |-> typ(3), abs |-> -1,
+                                      rel |-> << [to |-> pp[1], off |-> Offs[1 + RndS(Seed, k, 12, 6, 4)]] >>]
+    IN [k |-> k, txs |-> [j \in 1..n |-> tx(j)]]
+CaseOf(k) == IF 2 * k > NCfg /\ Len(RelCheckers) > 0 THEN Directed(k) ELSE CfgOf(k)
+
 VARIABLE j
 Init == j = 1
 Next == j' \in {2 * j, 2 * j + 1} /\ j' <= NCfg
-Emit == j > NCfg \/ PrintT("@@G " \o ToJson(CfgOf(j)) \o " G@@")
+Emit == j > NCfg \/ PrintT("@@G " \o ToJson(CaseOf(j)) \o " G@@")
 =============================================================================
